@@ -233,7 +233,9 @@ func (c *FnCtx) evalUnary(st *State, x *ast.UnaryExpr) Val {
 					// address of a local struct: move it into a cell
 					cell := &Cell{Name: id.Name + "$cell"}
 					st.cells[cell] = sv
-					c.unsupportedf(x.Pos(), "address-of local struct %s (aliasing not modelled)", id.Name)
+					if !c.inReturn {
+						c.unsupportedf(x.Pos(), "address-of local struct %s (aliasing not modelled)", id.Name)
+					}
 					return &PtrVal{Cell: cell, NonNil: "true"}
 				}
 			}
@@ -624,6 +626,25 @@ func (c *FnCtx) evalSliceExpr(st *State, x *ast.SliceExpr) Val {
 	if p, ok := base.(*PtrVal); ok { // (&arr)[:] not used
 		_ = p
 	}
+	if hv, isHash := base.(SV); isHash && hv.S.K == KHash {
+		// h[:] of a 32-byte hash: a byte view whose contents are not modelled
+		for _, e := range []ast.Expr{x.Low, x.High} {
+			if e != nil {
+				c.eval(st, e)
+			}
+		}
+		v, _ := c.freshSlice(types.Typ[types.Uint8], "hashbytes", bvInt(32, 64))
+		sl := v.(*SliceVal)
+		sl.Nil = ""
+		if x.High != nil {
+			if tv, ok := c.prog.Info.Types[x.High]; ok && tv.Value != nil {
+				if n, ok2 := constantInt(tv.Value); ok2 && n >= 0 && n <= 32 {
+					sl.Len = bvInt(n, 64)
+				}
+			}
+		}
+		return sl
+	}
 	b, ok := base.(*SliceVal)
 	if !ok {
 		c.unsupportedf(x.Pos(), "slice expression on %T", base)
@@ -753,4 +774,11 @@ func (c *FnCtx) storeElem(s *SliceVal, idx string, v Val) {
 func (s *SliceVal) copyHdr() *SliceVal {
 	n := *s
 	return &n
+}
+
+func constantInt(v constant.Value) (int64, bool) {
+	if v.Kind() != constant.Int {
+		return 0, false
+	}
+	return constant.Int64Val(v)
 }
